@@ -316,6 +316,8 @@ add("C01",
 
 # ---------------------------------------------------------------- C05
 add("C05",
+    V("revert-fix-empty-relative-split", "C05", [("dateparser/languages/dictionary.py", "        if self._relative_strings:\n            tokens = split_relative_regex.split(string)\n        else:\n            # without counted patterns the split expression is empty and would\n            # match between any two non-word characters (\"ejo (hazoza)\")\n            tokens = [string]\n", "        tokens = split_relative_regex.split(string)\n")], "fire", "C05.S",
+      note="locales without counted patterns: names / phrases with two adjacent non-word characters are torn apart"),
     V("new-simplification-eats-month", "C05", [("dateparser/data/date_translation_data/de.py", '    "simplifications": [', '    "simplifications": [\n        {\n            "mai": "5"\n        },')], "fire", "C05.S-A"),
     V("month-abbreviation-equals-hardcoded-token", "C05", [("dateparser/data/date_translation_data/en.py", '    "march": [\n        "mar",', '    "march": [\n        "z",\n        "mar",')], "fire", "C05.S"),
     V("alternation-not-longest-first", "C05", [(DICT, "                value=sorted([key for key in self], key=len, reverse=True),", "                value=sorted([key for key in self]),")], "fire", "C05.R5"),
@@ -325,6 +327,8 @@ add("C05",
 
 # ---------------------------------------------------------------- C06
 add("C06",
+    V("revert-fix-empty-relative-split", "C06", [("dateparser/languages/dictionary.py", "        if self._relative_strings:\n            tokens = split_relative_regex.split(string)\n        else:\n            # without counted patterns the split expression is empty and would\n            # match between any two non-word characters (\"ejo (hazoza)\")\n            tokens = [string]\n", "        tokens = split_relative_regex.split(string)\n")], "fire", "C06.R4",
+      note="locales without counted patterns: names / phrases with two adjacent non-word characters are torn apart"),
     V("plural-canonical-key", "C06", [("dateparser/data/date_translation_data/fr.py", '        "in 2 day": [', '        "in 2 days": [')], "fire", "C06.R1"),
     V("unknown-unit-in-key", "C06", [("dateparser/data/date_translation_data/fr.py", '        "2 day ago": [', '        "2 jour ago": [')], "fire", "C06.R1"),
     V("number-not-group-1", "C06", [("dateparser/data/date_translation_data/en.py", '"(\\\\d+[.,]?\\\\d*) hr ago"', '"(about )?(\\\\d+[.,]?\\\\d*) hr ago"')], "fire", "C06.R2"),
